@@ -114,7 +114,7 @@ def shards(tier: str, seed: int) -> List[Dict[str, Any]]:
     out: List[Dict[str, Any]] = []
     ndoc = 16 if q else 96
     for k in range(ndoc):
-        out.append({"kind": "doc", "sub": k, "nstreams": 2500 if q else 9000, "offset": k * 41})
+        out.append({"kind": "doc", "sub": k, "nstreams": 4000 if q else 9000, "offset": k * 41})
     for k in range(8 if q else 32):
         out.append({"kind": "direct", "sub": 100 + k, "n": 700 if q else 3000})
     # exhaustive row-filter assignments: one shard per (bpc, colours)
@@ -123,8 +123,8 @@ def shards(tier: str, seed: int) -> List[Dict[str, Any]]:
             out.append({"kind": "pngexh", "bpc": bpc, "colors": colors, "sub": 200 + bpc * 10 + colors})
     for k in range(4 if q else 16):
         out.append({"kind": "predrand", "sub": 300 + k, "n": 3000 if q else 15000})
-    for k in range(12 if q else 64):
-        out.append({"kind": "big", "sub": 400 + k, "n": 6 if q else 14})
+    for k in range(16 if q else 64):
+        out.append({"kind": "big", "sub": 400 + k, "n": 8 if q else 14})
     return out
 
 
@@ -509,7 +509,7 @@ def _count_stream(rec, sc: Dict[str, Any], sp: Optional[Dict[str, Any]]) -> None
     if sp is not None:
         rec.count("kw_eol:" + ("crlf" if sp["kw_eol"] == b"\r\n" else "lf"))
         rec.count("end_eol:" + {b"\n": "lf", b"\r\n": "crlf", b"\r": "cr", b"": "none"}[sp["end_eol"]])
-        rec.count("dict_sep:" + {b"\n": "lf", b"\r\n": "crlf", b" ": "sp", b"": "none"}[sp["dict_sep"]])
+        rec.count("dict_sep:" + {b"\n": "lf", b"\r\n": "crlf", b" ": "sp", b"": "none"}.get(sp["dict_sep"], "comment"))
         rec.count("length:" + sp["length"])
         if sc["chain"]:
             rec.count("filter_form:" + sp["filter_form"])
